@@ -192,6 +192,28 @@ def _partition(right):
     return f
 
 
+def _str_count_native(interp, args, kwargs):
+    """s.count(c) for native strings: uninterpreted, with count >= 0 and count == 0 iff c does not occur"""
+    ctx = interp.ctx
+    t, c = _s(interp, args[0]), _s(interp, args[1])
+    f = z3.Function("count_of", z3.StringSort(), z3.StringSort(), z3.IntSort())
+    r = f(t, c)
+    ctx.assume(r >= 0)
+    ctx.assume((r == 0) == z3.Not(z3.Contains(t, c)))
+    return SV(INT, r)
+
+
+def _format_error_with_context(interp, args, kwargs):
+    """ErrorHandler.format_error_with_context(handler, kind, ...) called through the class: for error-severity kinds the
+    same single issue as format_error (the handler only adds context and drops warnings)"""
+    from contracts.common import _format_error
+    kind = args[1]
+    entry = interp.engine.errtab.get(kind) if isinstance(kind, str) else None
+    if entry is None or entry["severity"] != 1:
+        raise Unsupported("format_error_with_context for a non-error kind")
+    return _format_error(interp, list(args[1:]), kwargs)
+
+
 def _empty_str_set(interp, args, kwargs):
     return SV(TSet(STR), z3.K(z3.StringSort(), z3.BoolVal(False)))
 
@@ -327,6 +349,8 @@ if z3 is not None:
         "UnitClassEntry.has_attribute": _entry_has_attribute, "UnitEntry.has_attribute": _entry_has_attribute,
         "tag_view": _tag_view, "basic_issues_of": _ulist("basic_issues_of", 3), "full_issues_of": _ulist("full_issues_of", 2),
         "str.rpartition": _partition(True), "str.partition": _partition(False),
+        "str.count": _str_count_native, "count_of": _str_count_native,
+        "ErrorHandler.format_error_with_context": _format_error_with_context,
         "str.replace": _str_replace, "replace_all": _str_replace,
         "forall_str": _forall_str, "dirname_of": _dirname_model, "commonpath2": _ufun("commonpath2", 2),
         "os.path.commonpath": lambda interp, args, kwargs: _ufun("commonpath2", 2)(interp, list(interp.iter_items_concrete(args[0])), {}), "basename_of": _basename_model, "original_path_of": _ufun("original_path_of", 2),
